@@ -12,6 +12,11 @@ number of lines of every file is preserved so panic locations refer to /repo's l
   R4  method name serialize_f32                   -> serialize_sf  (+ `use ::verif_rt::SerializerSfExt as _;`)
   R5  Cargo.toml: add the dependency verif_rt = { path = ... }
 
+  R6  numeric cast `E as <prim>`                  -> (::verif_rt::cast::to_<prim>(E))   (E: the unary / postfix
+      expression the cast applies to; `as` cannot be overloaded, so a cast from or to the lifted scalar goes through
+      a trait: int -> f32 builds a constant, f32 -> int concretises on the path witness and records the pinning
+      comparisons as decisions)
+
 mode "maponly" applies only R3 and R5 (used for order-deterministic native runs).
 """
 import os
@@ -226,12 +231,155 @@ def rewrite_paths(toks):
     return out
 
 
+PRIMS = {'f32', 'f64', 'i8', 'i16', 'i32', 'i64', 'i128', 'isize', 'u8', 'u16', 'u32', 'u64', 'u128', 'usize'}
+KEYWORDS = {'if', 'while', 'match', 'return', 'in', 'let', 'else', 'as', 'for', 'loop', 'move', 'mut', 'ref', 'break',
+            'continue', 'unsafe', 'where', 'const', 'static', 'fn', 'impl', 'dyn', 'pub', 'use', 'mod', 'struct', 'enum',
+            'type', 'trait', 'yield', 'await', 'box'}
+OPEN = {')': '(', ']': '[', '}': '{'}
+
+
+def rewrite_casts(toks):
+    """R6.  Lexical: the operand of `as` is a postfix expression (path, literal, parenthesised group, call, index,
+    field / method chain, `?`) with its unary prefix operators.  Casts whose operand cannot be delimited this way
+    (blocks, closures) are left alone."""
+    def psig(j):
+        while j >= 0 and toks[j][0] in ('ws', 'comment'):
+            j -= 1
+        return j
+
+    def match_open(j):
+        close = toks[j][1]
+        depth = 0
+        while j >= 0:
+            k, t = toks[j]
+            if k == 'punct' and t in OPEN:
+                depth += 1
+            elif k == 'punct' and t in OPEN.values():
+                depth -= 1
+                if depth == 0:
+                    return j if t == OPEN[close] else -1
+            j -= 1
+        return -1
+
+    def match_angle(j):
+        depth = 0
+        while j >= 0:
+            k, t = toks[j]
+            if k == 'punct' and t == '>' and not (j > 0 and toks[j - 1] == ('punct', '-')):
+                depth += 1
+            elif k == 'punct' and t == '<':
+                depth -= 1
+                if depth == 0:
+                    return j
+            elif k == 'punct' and t in ';{}':
+                return -1
+            j -= 1
+        return -1
+
+    def operand_start(pos):
+        """index of the first token of the operand that ends just before toks[pos] (`as`), or -1"""
+        j = psig(pos - 1)
+        start = -1
+        while j >= 0:
+            k, t = toks[j]
+            if k == 'punct' and t == '?':
+                j = psig(j - 1); continue
+            if k == 'punct' and t in (')', ']'):
+                o = match_open(j)
+                if o < 0:
+                    return -1
+                start = o
+                j = psig(o - 1)
+                if j >= 0 and toks[j] == ('punct', '!'):          # macro call  name!(..)
+                    q = psig(j - 1)
+                    if q >= 0 and toks[q][0] == 'ident' and toks[q][1] not in KEYWORDS:
+                        start = q; j = psig(q - 1)
+                elif j >= 0 and toks[j] == ('punct', '>'):        # turbofish  f::<T>(..)
+                    a = match_angle(j)
+                    q = psig(a - 1) if a > 0 else -1
+                    if a > 0 and q >= 1 and toks[q] == ('punct', ':') and toks[q - 1] == ('punct', ':'):
+                        j = psig(q - 2)
+                        continue_chain = True
+                    else:
+                        return start
+                    # the path segment before `::<`
+                    if j >= 0 and toks[j][0] == 'ident' and toks[j][1] not in KEYWORDS:
+                        start = j; j = psig(j - 1)
+                    else:
+                        return -1
+                elif j >= 0 and toks[j][0] == 'ident' and toks[j][1] not in KEYWORDS and t == ')':
+                    start = j; j = psig(j - 1)                    # call  f(..)
+                elif j >= 0 and t == ']' and (toks[j][0] == 'ident' and toks[j][1] not in KEYWORDS or toks[j] in (('punct', ')'), ('punct', ']'))):
+                    continue                                      # index  e[..]
+            elif k in ('ident', 'num', 'str', 'char'):
+                if k == 'ident' and t in KEYWORDS and t not in ('self', 'Self', 'crate', 'super'):
+                    return start
+                start = j
+                j = psig(j - 1)
+            else:
+                return start
+            # chain: `.` or `::` continues the postfix expression to the left
+            if j >= 0 and toks[j] == ('punct', '.'):
+                q = psig(j - 1)
+                if q >= 0 and toks[q] == ('punct', '.'):          # range `..`
+                    return start
+                j = q; continue
+            if j >= 1 and toks[j] == ('punct', ':') and toks[j - 1] == ('punct', ':'):
+                j = psig(j - 2)
+                if j < 0 or toks[j][0] != 'ident':
+                    start = j + 1 if j >= 0 else 0                # leading `::`
+                    # find the actual first `:` token
+                    q = start
+                    while q < pos and toks[q] != ('punct', ':'):
+                        q += 1
+                    return q
+                continue
+            return start
+        return start
+
+    def unary_prefix(start):
+        """extend over unary - ! * & in prefix position"""
+        while True:
+            j = psig(start - 1)
+            if j < 0 or toks[j][0] != 'punct' or toks[j][1] not in '-!*&':
+                return start
+            q = psig(j - 1)
+            prefix_pos = q < 0 or (toks[q][0] == 'punct' and toks[q][1] in '([{,;=<>+-*/%!&|^:') or (toks[q][0] == 'ident' and toks[q][1] in KEYWORDS)
+            if not prefix_pos:
+                return start
+            start = j
+
+    i = 0
+    while i < len(toks):
+        if toks[i] == ('ident', 'as'):
+            nx = sig(toks, i + 1)
+            after = sig(toks, nx + 1) if nx < len(toks) else nx
+            is_prim = nx < len(toks) and toks[nx][0] == 'ident' and toks[nx][1] in PRIMS
+            path_follows = after + 1 < len(toks) and toks[after] == ('punct', ':') and toks[after + 1] == ('punct', ':')
+            if is_prim and not path_follows:
+                st = operand_start(i)
+                if st is not None and st >= 0:
+                    st = unary_prefix(st)
+                    prim = toks[nx][1]
+                    # drop ` as prim` (keeping any newlines), wrap the operand
+                    dropped = ''.join(t for _, t in toks[psig(i - 1) + 1:nx + 1])
+                    keep_nl = '\n' * dropped.count('\n')
+                    head = [('punct', '('), ('raw', '::verif_rt::cast::to_%s' % prim), ('punct', '(')]
+                    e = psig(i - 1)
+                    toks = toks[:st] + head + toks[st:e + 1] + [('punct', ')'), ('punct', ')')] + ([('ws', keep_nl)] if keep_nl else []) + toks[nx + 1:]
+                    i = st + 3 + (e + 1 - st) + 2
+                    continue
+        i += 1
+    return toks
+
+
 def lift_source(src, mode='full'):
     toks = lex(src)
     toks = rewrite_uses(toks)
     toks = rewrite_paths(toks)
     if mode == 'maponly':
         return ''.join(t for _, t in toks)
+    toks = rewrite_casts(toks)
     out = []
     prev_sig = None
     uses_ser = False
